@@ -4,7 +4,31 @@
    Case lines (multipliers travel as the decimal value of the float64's 64-bit pattern, never as text):
      B <cur> <multbits> <ceil> | <next>                 one call of nextBackoffDelay
      Q <init> <multbits> <t5> <n> | <sleep_0> ... <sleep_n-1>   the sleeps of connectLoop's arithmetic
+     G <init> <multbits> <t5> <n> | {<j> <gap_ns> <upper>}*n    e2e: observed gap before a dial that the loop
+                                                          preceded by its j-th sleep: gap >= model sleep_j (exact),
+                                                          and, when <upper>=1, gap <= sleep_j + 2.5 s
+     E <tag> <role> | <tokens>                           e2e observation log -> extracted monitor ok_C11
 *)
+let rec nth_z (l : z list) (i : int) : z = match l with [] -> failwith "nth" | x :: r -> if i = 0 then x else nth_z r (i - 1)
+
+let open_res = function
+  | "ok" -> LcOpenOk | "already" -> LcOpenAlready | "start" -> LcOpenErrStart | "ctx" -> LcOpenErrCtx
+  | "closed" -> LcOpenErrClosed | s -> failwith ("open class " ^ s)
+let close_res = function
+  | "ok" | "timeout" | "other" -> LcCloseOk | "notopen" -> LcCloseNotOpen | s -> failwith ("close class " ^ s)
+let rec nat_of_int' (i : int) : nat = if i <= 0 then O else S (nat_of_int' (i - 1))
+let rec parse_obs toks acc =
+  match toks with
+  | [] -> List.rev acc
+  | "OC" :: r -> parse_obs r (LcObsOpenCall :: acc)
+  | "OR" :: c :: solo :: r -> parse_obs r (LcObsOpenRet (open_res c, bool_of_string01 solo) :: acc)
+  | "CR" :: c :: calm :: g :: k :: l :: sel :: r ->
+    parse_obs r (LcObsCloseRet (close_res c, bool_of_string01 calm, nat_of_int' (int_of_string g), nat_of_int' (int_of_string k),
+                                nat_of_int' (int_of_string l), bool_of_string01 sel) :: acc)
+  | "D" :: ok :: r -> parse_obs r (LcObsDial (bool_of_string01 ok) :: acc)
+  | "RC" :: a :: b :: r -> parse_obs r (LcObsReconnects (nat_of_int' (int_of_string a), nat_of_int' (int_of_string b)) :: acc)
+  | t :: _ -> failwith ("token " ^ t)
+
 let split_bar line =
   match String.index_opt line '|' with
   | None -> failwith "no bar"
@@ -26,6 +50,24 @@ let check _ln line =
     let m = String.concat " " (List.map z_to_string ss) in
     let obs = String.concat " " r in
     if m <> obs then Some (Printf.sprintf "sleeps model=[%s] impl=[%s]" m obs) else None
+  | "G" :: init :: bits :: t5 :: n :: [] ->
+    let ss = backoff_sleeps_from (z_of_string init) (backoff_f64_of_bits (z_of_string bits)) (z_of_string t5) (nat_of_int 64) in
+    let slack = z_of_string "2500000000" in
+    let rec go toks =
+      match toks with
+      | [] -> None
+      | j :: gap :: up :: rest ->
+        let want = nth_z ss (int_of_string j) and g = z_of_string gap in
+        if Z.ltb g want then Some (Printf.sprintf "dial gap %s ns shorter than model sleep_%s = %s ns" gap j (z_to_string want))
+        else if up = "1" && Z.ltb (Z.add want slack) g then Some (Printf.sprintf "dial gap %s ns longer than model sleep_%s + slack" gap j)
+        else if Z.ltb (z_of_string t5) want then Some "model sleep exceeds T5"
+        else go rest
+      | _ -> Some "bad G line"
+    in
+    ignore n; go r
+  | "E" :: _ ->
+    let obs = parse_obs r [] in
+    if ok_C11 obs then None else Some "monitor ok_C11 rejects the recorded log"
   | _ -> Some "unparsable case line"
 
 let () = run_cases Sys.argv.(1) check
